@@ -6,7 +6,7 @@ SPEC = {
     "module": "C14.Property",
     "targets": ["C14/Property.vo", "C13/Property.vo"],
     "theorems": ["C14_serial_step", "C14_changed_iff", "C14_first_serial_zero", "C14_bounded", "C14_keep_constant",
-                 "C14_nonvacuous"],
+                 "C14_model_satisfies_spec", "C14_nonvacuous"],
     "streams": [dict(_m._STREAM, name="history14")],
     "level_text": "Theorems for every reachable history and every history-size (0 included, no upper bound): the serial "
                   "moves by exactly one mod 2^32 when an active history receives a different data set and not otherwise, "
